@@ -396,7 +396,7 @@ func ruleReducer(r *Report) {
 	anchT, _ := condEdges(fn, func(c ssa.Value) bool {
 		if f, ok := c.(*ssa.Field); ok {
 			st, _ := f.X.Type().Underlying().(*types.Struct)
-			return st != nil && st.Field(f.Field).Name() == "includesOldest"
+			return st != nil && refField(f.X.Type(), f.Field) == "includesOldest"
 		}
 		_, f, _, ok := loadOfField(c)
 		return ok && f == "includesOldest"
